@@ -177,19 +177,19 @@ EnIdx(A, i, j)   == 1 <= i /\ i <= A.r /\ 1 <= j /\ j <= A.c
 
 (***************************************************************************)
 (* 4. Rational-valued results.  A fraction is <<num, den>> with den > 0.   *)
-(* An observation o is the fixed-point integer round(v * 2^S).  It is      *)
+(* An observation o is the fixed-point integer round(v * 2^10).  It is     *)
 (* accepted iff it lies within `tol` units (plus the quantisation step) of *)
-(* the exact value; the floor of num*2^S/den is computed without forming   *)
-(* num*2^S (32-bit integers in TLC).                                       *)
+(* the exact value; the floor of num*2^10/den is computed without forming  *)
+(* num*2^10 (32-bit integers in TLC).                                      *)
 (***************************************************************************)
-S == 10
-P == 1024                   \* 2^S
-RatFloor(num, den) == (num \div den) * P + ((num % den) * P) \div den
+FxBits == 10
+FxOne == 1024               \* 2^FxBits
+RatFloor(num, den) == (num \div den) * FxOne + ((num % den) * FxOne) \div den
 RatClose(num, den, o, tol) ==
     LET fl == RatFloor(num, den) IN (o - fl >= -1 - tol) /\ (o - fl <= 2 + tol)
 
 (* relative slack for single precision: a value of magnitude `mag` carries an absolute
-   error of a few units in the 24th bit; 2^-18 * mag, expressed in units of 2^-S *)
+   error of a few units in the 24th bit; 2^-18 * mag, expressed in units of 2^-10 *)
 TolTy(ty, mag) == IF ty = "f32" THEN (mag \div 256) + 1 ELSE 0
 
 Frac(num, den) == IF den < 0 THEN <<-num, -den>> ELSE <<num, den>>
@@ -208,14 +208,14 @@ VarFrac(xs) ==
     IN  <<n * s2 - s1 * s1, n * n>>
 Spread(xs) == SeqMax(xs) - SeqMin(xs)
 
-(* "accurate relative to the spread of the data": error at most 2^-S * spread^2
+(* "accurate relative to the spread of the data": error at most 2^-10 * spread^2
    (plus quantisation).  var <= spread^2 / 4, so this is a relative accuracy of 2^-8
    on the variance itself for the worst data and is insensitive to any common offset. *)
 VarTol(xs) == Spread(xs) * Spread(xs) + 2
 VarClose(xs, o) == LET f == VarFrac(xs) IN RatClose(f[1], f[2], o, VarTol(xs))
 
-(* standard deviation: o is round(std * 2^S).  Compared through its square at the
-   coarser scale 2^5 (o5 = floor(o / 32); o5^2 has scale 2^S). *)
+(* standard deviation: o is round(std * 2^10).  Compared through its square at the
+   coarser scale 2^5 (o5 = floor(o / 32); o5^2 has scale 2^10). *)
 StdClose(xs, o) ==
     LET f   == VarFrac(xs)
         vfl == RatFloor(f[1], f[2])
@@ -223,7 +223,7 @@ StdClose(xs, o) ==
         o5  == o \div 32
         lo  == IF o5 >= 1 THEN o5 - 1 ELSE 0
     IN  /\ o >= 0
-        /\ o <= (Spread(xs) + 1) * P          \* std <= spread (also keeps the squares in range)
+        /\ o <= (Spread(xs) + 1) * FxOne          \* std <= spread (also keeps the squares in range)
         /\ lo * lo <= vfl + tol + 1
         /\ (o5 + 2) * (o5 + 2) >= vfl - tol
 
@@ -401,10 +401,11 @@ QInt(op, A, B, ia) ==
       [] OTHER -> Q_(FALSE, <<>>)
 
 (* observations that went through sqrt / powf and were squared (raised) back by the
-   harness: exact in double precision, within 2^-20 relative in single precision *)
+   harness: exact in double precision; in single precision the root carries a relative
+   error of a few 2^-24 (powf, and the exponent 1/p itself), hence 2^-18 relative *)
 RootedOps == {"norm2sq", "normp", "v_norm2sq", "v_normp"}
 IntClose(ty, op, expect, o) ==
-    IF op \in RootedOps /\ ty = "f32" THEN Abs(o - expect) <= 1 + (expect \div 1048576)
+    IF op \in RootedOps /\ ty = "f32" THEN Abs(o - expect) <= 1 + (expect \div 262144)
     ELSE o = expect
 
 QBool(op, A, B, ia) ==
